@@ -1,5 +1,8 @@
 import DelbModel.Model.XPath.Parser
 import DelbModel.Lemmas.XPath
+import DelbModel.Model.Cache
+import DelbModel.Lemmas.Cache
+import DelbModel.Generated.CacheSkeleton
 /-!
 # C16 — Any string is either a parsed XPath expression or an XPathParsingError
 
@@ -70,5 +73,74 @@ theorem c16_total (s : Str) :
     | unsupported p msg => exact Or.inr ⟨p, msg, h1, Or.inr rfl⟩
     | pyError kind site => exact h1.elim
     | outOfFuel => exact h1.elim
+
+/-! ## "cached and freshly parsed expressions are equal and evaluate identically"
+
+`tokenize`, `parse` and `_css_to_xpath` sit behind `functools.lru_cache`.  Two things make that
+unobservable: the cache only ever hands out what the function returns for that key (theorems over
+`Model/Cache.lean`, for every history of calls and `cache_clear()`s, every `maxsize`, starting from
+the empty cache), and the shared objects it hands out are never changed after construction
+(translator obligations over `Generated/CacheSkeleton.lean`, re-derived from /repo on every run). -/
+
+/-- translator obligation: every memoised function of the XPath package changes nothing it
+    receives or sees (it is a function of its key) -/
+theorem c16_cache_sites :
+    Gen.cachedFunctions ≠ [] ∧ ∀ c ∈ Gen.cachedFunctions, c.objectsMutated = 0 := by
+  decide
+
+/-- translator obligation: outside the constructors no function of `_delb/xpath/ast.py` stores into
+    an expression object (or into anything else it did not create itself), constructors store into
+    `self` only, and the memoised properties are the three known ones -/
+theorem c16_ast_immutable :
+    (∀ m ∈ Gen.astMethods, m.isConstructor = false → m.selfMutations = 0 ∧ m.foreignMutations = 0) ∧
+    (∀ m ∈ Gen.astMethods, m.isConstructor = true → m.foreignMutations = 0) ∧
+    (∃ m ∈ Gen.astMethods, m.name = "LocationStep.evaluate") ∧
+    (Gen.astMethods.filter (·.isCachedProperty)).map (·.name) =
+      ["LocationStep._anders_predicates", "LocationStep._derived_attributes",
+       "XPathExpression._is_unambiguously_locatable"] := by
+  decide
+
+open Delb.Cache in
+/-- an lru cache in front of a function is unobservable: whatever was called or cleared before,
+    with any `maxsize`, every call answers what the function itself answers (results *and*
+    errors; errors are never stored) -/
+theorem c16_cache_transparent {K V E : Type} [DecidableEq K] (f : K → Except E V) (maxsize : Nat)
+    (ops : List (Op K)) : (run f maxsize [] ops).1 = runUncached f ops :=
+  (run_answers f maxsize ops [] (fun _ _ h => by cases h)).1
+
+open Delb.Cache in
+/-- the invariant behind it, for every reachable cache: each stored pair is a value of the function -/
+theorem c16_cache_sound {K V E : Type} [DecidableEq K] (f : K → Except E V) (maxsize : Nat)
+    (ops : List (Op K)) : Sound f (run f maxsize [] ops).2 :=
+  (run_answers f maxsize ops [] (fun _ _ h => by cases h)).2
+
+open Delb.Cache in
+/-- … and it never holds more than `maxsize` entries -/
+theorem c16_cache_bounded {K V E : Type} [DecidableEq K] (f : K → Except E V) (maxsize : Nat)
+    (hm : 0 < maxsize) (ops : List (Op K)) : (run f maxsize [] ops).2.length ≤ maxsize :=
+  run_bounded f maxsize hm ops [] (Nat.zero_le _)
+
+open Delb.Cache in
+/-- instance for the parser: after any history of parses and cache clears, parsing a string gives
+    what a fresh parse of that string gives -/
+theorem c16_cached_parse_is_fresh (maxsize : Nat) (before : List (Op Str)) (s : Str) :
+    ((run parse maxsize [] (before ++ [.call s])).1).getLast? = some (parse s) := by
+  rw [c16_cache_transparent]
+  induction before with
+  | nil => rfl
+  | cons op rest ih =>
+    cases op with
+    | call k =>
+      simp only [List.cons_append, runUncached]
+      cases hr : runUncached parse (rest ++ [Op.call s]) with
+      | nil => rw [hr] at ih; cases ih
+      | cons a as => rw [hr] at ih; simpa [List.getLast?_cons_cons] using ih
+    | clear => simpa only [List.cons_append, runUncached] using ih
+
+/-- non-vacuity: a cache of size 1, a hit, an eviction and an error that is not stored -/
+example :
+    Delb.Cache.run (fun n : Nat => if n = 3 then (Except.error "three" : Except String Nat) else .ok (n * 2)) 1 []
+        [.call 1, .call 1, .call 3, .call 2, .call 1, .clear, .call 2] =
+      ([.ok 2, .ok 2, .error "three", .ok 4, .ok 2, .ok 4], [(2, 4)]) := by rfl
 
 end Delb.XPath
